@@ -606,7 +606,8 @@ def evaluate_batch(ctx, batch, asan):
     prelude = ("Definition run_case (c : bool * rkind * option pyret * body * onerr * nat) : option (list Z * nat) :=\n"
                "  let '(encode, k, error, b, oe, nread) := c in\n"
                "  match rawerr encode k error with None => None\n"
-               "  | Some eb => let s := invoke encode k eb b oe (repeat 238 64) in Some (firstn nread (buf s), printed s) end.\n"
+               "  | Some eb => let s := exec_gic gic_prog encode k eb b oe (repeat 238 64) in\n"
+               "               if pending s then None else Some (firstn nread (buf s), printed s) end.\n"
                "Definition res_eqb := opt_eqb (pair_eqb (list_eqb Z.eqb) Nat.eqb).\n")
     bad, outs_, err = vlib.coq_mismatches(["C14.Spec", "C14.Gen", "C14.Model"], "run_case", "res_eqb", coq_cases, prelude=prelude,
                                           shard=200)
@@ -619,7 +620,7 @@ def evaluate_batch(ctx, batch, asan):
             continue
         ctx.mismatch(single_case(batch, sc), "model predicts %s, implementation gave %s for %s"
                      % (outs_.get(b), coq_cases[b][1], describe(sig, sc)),
-                     "C14.Model.invoke/fficallback/rawerr vs general_invoke_callback")
+                     "C14.Model.exec_gic on the regenerated C14.Gen.gic_prog / fficallback / rawerr vs general_invoke_callback")
     ctx.cov["model_cases"] = ctx.cov.get("model_cases", 0) + len(coq_cases)
     if not asan:
         for sc in scen[:2]:
@@ -638,8 +639,14 @@ def run(ctx):
     ctx.assumptions += [
         "coq/C14/Gen.v regenerated from recompiler._extern_python_decl by the shape-matching driver tools/props/c14_regen.py "
         "(trusted; fails closed to the committed snapshot)",
-        "hand-written model C14/Model.v of general_invoke_callback / convert_from_object_fficallback / "
-        "prepare_callback_info_tuple; tied to the code by this run's differential test",
+        "coq/C14/Gen.v gic_prog / gic_slot_stride / gic_deref_*: general_invoke_callback translated statement by statement "
+        "(trusted table of exact statement and condition texts in c14_regen.py; a statement outside the table writes a "
+        "degenerate gic_prog whose obligations break); the MEANING of each statement (C14/Model.v exec_stmt / eval_cond) is "
+        "hand-written and tied by this run's differential test, which evaluates exec_gic on the regenerated tree; the "
+        "argument loop is executed for one representative iteration, PyTuple_New failure is outside the model",
+        "hand-written model C14/Model.v of convert_from_object_fficallback / prepare_callback_info_tuple (and of "
+        "general_invoke_callback as the state machine `invoke`, proved equal to the regenerated tree); tied to the code by "
+        "this run's differential test",
         "platform hypothesis wf_xtype (every primitive type other than long double and double _Complex has sizeof <= 8) "
         "checked against ffi.sizeof on every run",
         "libffi closures, gcc and the x86-64 SysV return-register convention are exercised by sampling only"]
@@ -647,14 +654,36 @@ def run(ctx):
 
 
 MANIFEST = dict(
-    technique="Coq proof over a model regenerated from recompiler._extern_python_decl (buffer arithmetic, all signatures) and a "
-              "hand model of the backend (widening, error protocol) + differential execution of compiled random signatures",
-    text="Proof: for ALL extern \"Python\" signatures without double _Complex arguments every argument store of the generated "
-         "wrapper and every backend write of the result (value, error value, zero fill) stays inside char a[size_of_a] and "
-         "below the next slot; generator and backend agree on offsets and the by-reference rule; small results are sign/zero "
-         "extended to a whole ffi_arg; PyErr_Occurred() is false at every exit and C receives the value, the error value or "
-         "onerror's value per the table. Refuted (finding): double _Complex arguments overflow/overlap their 8-byte slot. "
-         "Partial: libffi closures and the ABI by sampling.",
-    note="Trusted: Coq kernel; py2coq driver c14_regen.py; hand model C14/Model.v (tied by differential testing); gcc; libffi. "
-         "Theorems closed under the global context.",
+    technique="Coq proof over models regenerated from recompiler._extern_python_decl (buffer arithmetic, all signatures) and from "
+              "general_invoke_callback (statement tree of the whole function incl. the error/onerror path, slot stride, "
+              "dereference flags), a hand model of convert_from_object_fficallback / prepare_callback_info_tuple + "
+              "differential execution of compiled random signatures against the regenerated tree",
+    text="Proved, for ALL inputs. (1) Regenerated from recompiler.py: for all extern \"Python\" signatures without double "
+         "_Complex arguments every argument store of the generated wrapper and every backend write of the result (value, "
+         "error value, zero fill) stays inside char a[size_of_a] and below the next slot (C14_externpy_buffer_safe); the "
+         "wrapper's offsets and by-reference rule equal the backend's, whose stride and flag set are now regenerated from "
+         "`a_src = args + i * 8` / the ct_flags test (C14_externpy_protocol_agrees); C14_externpy_args_exact: with every "
+         "stored representation at most 8 bytes, the backend's read of slot k+i returns exactly the bytes stored for "
+         "argument i (a generic lemma about disjoint 8-byte slots over the hand-defined wrapper_stores; only slot_offset "
+         "and the stride come from source; its hypothesis excludes the open finding). (2) Regenerated from "
+         "general_invoke_callback (gic_prog, executed by exec_gic): C14_gen_no_escape — PyErr_Occurred() is false at the "
+         "function's return for every convention, result type, error value, body outcome (returns anything / raises / an "
+         "argument cannot be converted) and onerror outcome, and the return is reached; C14_gen_agrees_with_invoke — the "
+         "regenerated tree equals the hand state machine `invoke` (result area, pending flag, number of reports) when the "
+         "result type is void or of positive size and the error value is >= 8 bytes, so C14_protocol_table / "
+         "C14_no_exception_escapes / C14_error_value_received (C receives the value, the error value or onerror's value per "
+         "the table) hold of regenerated code; C14_gen_error_value_received states the last one directly. (3) Hand model "
+         "only (tied by correspondence): small integer results are sign/zero extended to a whole ffi_arg "
+         "(C14_widening_signed/_unsigned, C14_no_widening); float/long double/complex/struct results enter as oracle bytes. "
+         "(4) C14_paths_use_modelled_code: eleven regenerated boolean facts (anchored ordered-substring extraction) that "
+         "ffi.callback() and extern \"Python\" reach general_invoke_callback with encode=1/0, that prepare_callback_info_tuple "
+         "and convert_from_object_fficallback keep their shape — textual anchors, not translations. Refuted (finding): "
+         "double _Complex arguments overflow/overlap their 8-byte slot (C14_externpy_args_refuted, _overlap_refuted). "
+         "Correspondence only: bytes -> Python object of arguments (convert_to_object), ffi.callback argument delivery "
+         "(libffi), the unattached extern \"Python\" branch of cffi_call_python, libffi closures and the ABI (sampling).",
+    note="Trusted: Coq kernel; py2coq driver and the statement/condition table of c14_regen.py; the hand-written meaning of "
+         "each gic_prog statement (exec_stmt/eval_cond) and the hand model of fficallback/rawerr in C14/Model.v (tied by "
+         "differential testing on the regenerated tree); gcc; libffi. A statement of general_invoke_callback outside the "
+         "table makes the run write a degenerate gic_prog: broken obligations, not a silent fallback. Theorems closed under "
+         "the global context.",
     design_ref="DESIGN.md §4 C14")
